@@ -6,7 +6,7 @@
    hook arguments and return the same point and outcome kind, and the caller's
    start vector must be unchanged. *)
 From Coq Require Import ZArith List Bool Floats.
-From ADV Require Import Base.Num Base.Corr C07.Model C07.ModelNewton.
+From ADV Require Import Base.Num Base.Corr C07.Model C07.ModelNewton C07.ModelNewtonMin C07.ModelSaga C07.ModelBlahut.
 Import ListNotations.
 Open Scope Z_scope.
 
@@ -18,7 +18,19 @@ Inductive lev :=
    getDirection: st = 0 direction t computed, 1 error returned, 2 panic inside the solver *)
 | LEvalV (x : list float) (seeds : list (list float)) (err : bool) (y : list float) (J : list (list float))
 | LHookV (x : list float) (J : list (list float)) (y : list float) (stop : bool)
-| LDir (st : Z) (t : list float).
+| LDir (st : Z) (t : list float)
+(* newton_min (round 3): f answers (y, g, H), phi answers (value, d/dalpha) at the logged
+   point x1 - alpha*t1 with seeds -t1, hook (x, g, H, y) *)
+| LEvalM (x : list float) (seeds : list (list float)) (err : bool) (y : float) (g : list float) (H : list (list float))
+| LPhi (x : list float) (seeds : list (list float)) (err : bool) (y d : float)
+| LHookM (x g : list float) (H : list (list float)) (y : float) (stop : bool)
+(* saga (round 3): call of f(j, x1) with answer (w, g); hook (x1, delta, n*lambda/gamma, epoch) *)
+| LSgEval (j : Z) (x : list float) (err : bool) (w : float) (g : list float)
+| LSgHook (x : list float) (delta lam : float) (epoch : Z) (stop : bool)
+(* blahut (round 3): one iteration of the body on p: (J, p') as computed by the harness's lock-step
+   re-implementation; hook call of the LIBRARY *)
+| LBStep (p : list float) (J : float) (p' : list float)
+| LBHook (p : list float) (J : float) (stop : bool).
 
 Inductive routine :=
 | RRprop (p : rp_params (A := float))
@@ -27,7 +39,10 @@ Inductive routine :=
 | RLS (hook cons : bool) (alpha1 : float) (maxEval : Z)
 | RBfgs (p : bf_params (A := float))
 | RAdam (p : ad_params (A := float))
-| RNewton (crit : bool) (p : nw_params (A := float)).   (* crit: RunCrit (y = gradient, J = Hessian) *)
+| RNewton (crit : bool) (p : nw_params (A := float))    (* crit: RunCrit (y = gradient, J = Hessian) *)
+| RNewtonMin (p : nm_params (A := float))               (* nm_phi: RunMin; else the back-tracking variant *)
+| RSaga (p : sg_params (A := float))
+| RBlahut (p : bl_params).
 
 Record case := mkCase {
   c_routine : routine;
@@ -113,6 +128,9 @@ Definition run_case (c : case) : outcome (A := float) * trace (A := float) :=
   | RBfgs p => bfgs NumF KF F HK CS p fuel (c_x0 c)
   | RAdam p => adam_dense NumF F HK CS p fuel (c_x0 c)
   | RNewton _ _ => (OutOfFuel, [])     (* replayed by run_newton / check_newton below *)
+  | RNewtonMin _ => (OutOfFuel, [])    (* replayed by run_newton_min / check_newton_min below *)
+  | RSaga _ => (OutOfFuel, [])         (* replayed by run_saga / check_saga below *)
+  | RBlahut _ => (OutOfFuel, [])       (* replayed by run_blahut / check_blahut below *)
   end.
 
 (* ---- newton (round 2): c_kind 0 nil error, 1 hook stop, 3 panic, 20 invalid initial
@@ -164,9 +182,133 @@ Definition check_newton (c : case) (p : nw_params (A := float)) : bool :=
   && ((c_kind c =? 3) || vfeqb (nw_point o) (c_point c))
   && vfeqb (c_x0 c) (c_x0_after c).
 
+(* ---- newton_min (round 3): c_kind as for newton plus 24 back-tracking failed (getPhi == nil),
+   25 lineSearch.Run returned an error (getPhi != nil) *)
+Section ReplayNewtonMin.
+Variable tbl : list lev.
+Definition oMF (k : nat) (x : list float) : nm_answer (A := float) :=
+  match nth_error tbl k with Some (LEvalM _ _ e y g H) => mkNmAns e y g H | _ => mkNmAns true nan [] [] end.
+Definition oMPHI (k : nat) (x p : list float) (al : float) : phi_answer (A := float) :=
+  match nth_error tbl k with Some (LPhi _ _ e y d) => mkPhiAns e y d | _ => mkPhiAns true nan nan end.
+Definition oMHK (k : nat) (h : nm_hookargs (A := float)) : bool :=
+  match nth_error tbl k with Some (LHookM _ _ _ _ b) => b | _ => true end.
+End ReplayNewtonMin.
+
+(* P.VmulS(p, alpha); X.VsubV(x, P): the point phi is evaluated at, and d X_i / d alpha = 0 - p_i *)
+Definition phi_point (x p : list float) (al : float) : list float :=
+  zipw (fun xi pi => xi - pi * al)%float x p.
+Definition phi_seeds (p : list float) : list (list float) := map (fun pi => [0 - pi]%float) p.
+
+Definition mev_match (e : nm_event (A := float)) (l : lev) : bool :=
+  match e, l with
+  | MvEval x a, LEvalM x' sd _ _ _ _ =>
+      vfeqb x x' && list_eqb (list_eqb fnumeq) (ident NumF (length x)) sd
+  | MvPhi x p al a, LPhi x' sd _ _ _ =>
+      vfeqb (phi_point x p al) x' && list_eqb (list_eqb fnumeq) (phi_seeds p) sd
+  | MvHook h b, LHookM x g H y b' =>
+      vfeqb (mh_x h) x && vfeqb (mh_g h) g && mfeqb (mh_H h) H && feqb (mh_y h) y && Bool.eqb b b'
+  | MvDir _ _ _ _, LDir _ _ => true
+  | MvCons x b, LCons x' b' => vfeqb x x' && Bool.eqb b b'
+  | _, _ => false
+  end.
+
+Definition nm_kind (o : nm_out (A := float)) : Z :=
+  match o with
+  | NmConv _ | NmCap _ => 0 | NmHook _ => 1 | NmPanic => 3 | NmFuel => 99
+  | NmErr MEInit _ => 20 | NmErr MEObj _ => 21 | NmErr MENaN _ => 22
+  | NmErr MEDir _ => 23 | NmErr MEBacktrack _ => 24 | NmErr MELineSearch _ => 25
+  end.
+Definition nm_point (o : nm_out (A := float)) : list float :=
+  match o with NmConv x | NmCap x | NmHook x | NmErr _ x => x | _ => [] end.
+
+Definition run_newton_min (c : case) (p : nm_params (A := float)) : nm_out (A := float) * nm_trace (A := float) :=
+  let tbl := c_table c in
+  newton_min NumF KF (oMF tbl) (oMPHI tbl) (oND tbl) (oMHK tbl) (oCS tbl) p (length tbl + 5)%nat (c_x0 c).
+
+Definition check_newton_min (c : case) (p : nm_params (A := float)) : bool :=
+  let r := run_newton_min c p in
+  let o := fst r in
+  list_match mev_match (rev (snd r)) (c_table c)
+  && (nm_kind o =? c_kind c)
+  && ((c_kind c =? 3) || vfeqb (nm_point o) (c_point c))
+  && vfeqb (c_x0 c) (c_x0_after c).
+
+Definition diverge_newton_min (c : case) : option nat * Z * list float :=
+  match c_routine c with
+  | RNewtonMin p =>
+      let r := run_newton_min c p in
+      (first_mis mev_match 0 (rev (snd r)) (c_table c), nm_kind (fst r), nm_point (fst r))
+  | _ => (None, 0, [])
+  end.
+
+(* ---- saga (round 3): c_kind 0 nil error, 1 hook stop, 2 error, 3 panic *)
+Section ReplaySaga.
+Variable tbl : list lev.
+Definition oSF (k : nat) (j : nat) (x : list float) : sg_answer (A := float) :=
+  match nth_error tbl k with Some (LSgEval _ _ e w g) => mkSgAns e w g | _ => mkSgAns true nan [] end.
+Definition oRJ (k : nat) : nat :=
+  match nth_error tbl k with Some (LSgEval j _ _ _ _) => Z.to_nat j | _ => 0%nat end.
+Definition oSHK (k : nat) (h : sg_hookargs (A := float)) : bool :=
+  match nth_error tbl k with Some (LSgHook _ _ _ _ b) => b | _ => true end.
+End ReplaySaga.
+
+Definition sev_match (e : sg_event (A := float)) (l : lev) : bool :=
+  match e, l with
+  | SvEval j x a, LSgEval j' x' _ _ _ => (Z.of_nat j =? j') && vfeqb x x'
+  | SvHook h b, LSgHook x d lam ep b' =>
+      vfeqb (sh_x h) x && feqb (sh_delta h) d && feqb (sh_lam h) lam && (sh_epoch h =? ep) && Bool.eqb b b'
+  | _, _ => false
+  end.
+Definition sg_kind (o : sg_out (A := float)) : Z :=
+  match o with SgConv _ | SgCap _ => 0 | SgHook _ => 1 | SgErr _ => 2 | SgPanic => 3 | SgFuel => 99 end.
+Definition sg_point (o : sg_out (A := float)) : list float :=
+  match o with SgConv x | SgCap x | SgHook x | SgErr x => x | _ => [] end.
+Definition run_saga (c : case) (p : sg_params (A := float)) :=
+  let tbl := c_table c in
+  saga NumF (oSF tbl) (oRJ tbl) (oSHK tbl) p (length tbl + 5)%nat (c_x0 c).
+Definition check_saga (c : case) (p : sg_params (A := float)) : bool :=
+  let r := run_saga c p in
+  let o := fst (fst r) in
+  list_match sev_match (rev (snd (fst r))) (c_table c)
+  && (sg_kind o =? c_kind c)
+  && ((c_kind c =? 3) || vfeqb (sg_point o) (c_point c))
+  && vfeqb (c_x0 c) (c_x0_after c).
+Definition diverge_saga (c : case) : option nat * Z * list float :=
+  match c_routine c with
+  | RSaga p =>
+      let r := run_saga c p in
+      (first_mis sev_match 0 (rev (snd (fst r))) (c_table c), sg_kind (fst (fst r)), sg_point (fst (fst r)))
+  | _ => (None, 0, [])
+  end.
+
+(* ---- blahut (round 3): c_kind 0 step cap, 1 hook stop *)
+Definition oBSTEP (tbl : list lev) (k : nat) (p : list float) : float * list float :=
+  match nth_error tbl k with Some (LBStep _ J p') => (J, p') | _ => (nan, []) end.
+Definition oBHK (tbl : list lev) (k : nat) (p : list float) (J : float) : bool :=
+  match nth_error tbl k with Some (LBHook _ _ b) => b | _ => true end.
+Definition bev_match (e : bl_event (A := float)) (l : lev) : bool :=
+  match e, l with
+  | BvStep p _ _, LBStep q _ _ => vfeqb p q
+  | BvHook p J b, LBHook q Jq b' => vfeqb p q && feqb J Jq && Bool.eqb b b'
+  | _, _ => false
+  end.
+Definition bl_kind (o : bl_out (A := float)) : Z := match o with BlCap _ => 0 | BlHook _ => 1 | BlFuel => 99 end.
+Definition bl_point (o : bl_out (A := float)) : list float := match o with BlCap p | BlHook p => p | BlFuel => [] end.
+Definition run_blahut (c : case) (p : bl_params) :=
+  blahut (oBSTEP (c_table c)) (oBHK (c_table c)) p (length (c_table c) + 5)%nat (c_x0 c).
+Definition check_blahut (c : case) (p : bl_params) : bool :=
+  let r := run_blahut c p in
+  list_match bev_match (rev (snd r)) (c_table c)
+  && (bl_kind (fst r) =? c_kind c)
+  && vfeqb (bl_point (fst r)) (c_point c)
+  && vfeqb (c_x0 c) (c_x0_after c).
+
 Definition check (c : case) : bool :=
   match c_routine c with
+  | RBlahut p => check_blahut c p
+  | RSaga p => check_saga c p
   | RNewton _ p => check_newton c p
+  | RNewtonMin p => check_newton_min c p
   | _ =>
   let r := run_case c in
   let o := fst r in
